@@ -1,24 +1,34 @@
 """C15 - module files are regenerated when stale and never observed half-written.
 
 corr (a): the real `Template(filename=…, module_directory=…)` runs in-process with proxies around every
-          file-system call mako makes (tempfile.mkstemp, os.write, os.close, shutil.move, os.stat,
-          os.path.exists, os.makedirs, open of the source, compat.load_module) over random histories
-          (<= 12 ops: touch the source newer/older/equal, delete the module, replace it by one with another
-          magic number, construct - also with raising / short-writing primitives and with module_writer
-          hooks); per construct the recorded write-group sequence, the number of (re)writes, what is served,
-          what the module path holds afterwards and the left-over temp files are compared with the Lean model
-          (`modfile hist`).  The file system's clock is a logical one (>= 1 s per history op; a written
-          module gets mtime = clock).  Also `util.verify_directory` vs `modfile vdir`.
+          file-system call mako makes (tempfile.mkstemp, os.fdopen + the raw writes and the close of the real
+          BufferedWriter it returns, os.write, os.close, shutil.move, os.stat, os.path.exists, os.makedirs, open
+          of the source, a direct open() of the destination, compat.load_module) over random histories (<= 12
+          ops: touch the source newer/older/equal, delete the module, remove the module directory, replace the
+          module by one with another magic number and/or generated from another template file, construct -
+          also with a raising or short-writing primitive in either write group and with module_writer hooks);
+          per construct the recorded write-group sequence, the number of (re)writes, what is served, what the
+          module path holds afterwards (version, magic, template file, mtime), the left-over temp files and the
+          hook calls are compared with the Lean model (`modfile hist`).  The file system's clock is a logical
+          one (>= 1 s per history op); stamps carry a sub-second part (sources T.25, modules T.31) while the
+          model's are whole seconds.  Also `util.verify_directory` vs `modfile vdir`, the post-states of (b) vs
+          the model, and the outcomes of (c) vs `modfile conc`.
 oracle  : judged against the property text, no Lean involved:
-      (in-process) after every construct of (a): the module path holds nothing or a complete module;
-      (b) fault enumeration in SUBPROCESSES: for every k kill the process before / after / midway the k-th
-          call of the write group, or make it raise, or make os.write short; then a fresh process lists the
-          directory, checks the module path in {absent, complete old, complete new} and constructs a fresh
-          Template which must render the CURRENT source;
-      (c) 2-8 processes constructing the same Template concurrently; all must render the current source
-          (corr: what they served and what the module path holds afterwards must be among the outcomes the
-          construct-interleaving model `modfile conc` reaches for that start state under random schedules);
-      (d) same-second rewrite with bytecode caching enabled (the history of the repaired finding F-C15-2).
+      (in-process) every construct of (a): written iff missing / older (whole seconds) / other magic number /
+          generated from another file; a reused module keeps bytes, inode and mtime; module_writer called with
+          (current module source, module path) exactly when due; what is served is current after a rewrite or
+          when the file was current; the module path holds nothing or a complete module;
+      (b) fault enumeration in SUBPROCESSES: 5 start states x every call k of the write group x {kill before,
+          kill after, kill midway (write), raise, short write}; then a fresh process lists the directory, checks
+          the module path in {absent, complete old, complete new} and constructs a fresh Template which must
+          render the CURRENT source;
+      (c) 2-8 processes constructing the same Template concurrently (6 start states), plus one process that is
+          killed at a random call of its write group; all others must render the current source and the module
+          path must hold the complete current module afterwards (corr: what they served and the final module
+          must be among the outcomes the construct-interleaving model reaches for that start state, with the
+          dying process stopped at the same point, under random schedules);
+      (d) same-second same-size rewrite with bytecode caching ENABLED in the worker, through the built-in writer
+          and through a module_writer: the current source must be rendered.
 """
 from __future__ import annotations
 
@@ -31,24 +41,33 @@ import sys
 import tempfile
 import time
 
-RULE = ("histories of <= 12 ops over {touch source newer/older/equal (relative to the module's mtime), delete "
-        "module, replace module by one with another _magic_number and/or generated from another template file "
-        "(fresh, equal or stale mtime), construct, construct "
-        "with a raising or short-writing primitive in either write group, construct with a module_writer hook "
-        "(installing / doing nothing)}; a history is non-trivial when it contains a reuse and a rewrite; distinct "
-        "= distinct op-token sequences.  Fault enumeration: start states {no module, stale module, other magic "
-        "number, generated from another file, stale + missing directory} x every call k of the write group x {kill before, kill after, kill "
-        "midway (write), raise, short write}.  Concurrency: 2..8 processes x start states x rounds.")
+RULE = ("histories of <= 12 ops over {touch source newer/older/equal (relative to the module's mtime; sources are "
+        "stamped T.25, modules T.31), delete module, remove module directory, replace module by one with another "
+        "_magic_number and/or generated from another template file (fresh, equal or stale mtime), construct, "
+        "construct with a raising or short-writing primitive in either write group, construct with a module_writer "
+        "hook (installing / doing nothing)} + 12 fixed histories; a history is non-trivial when it contains a reuse "
+        "and a rewrite; distinct = distinct op-token sequences.  Fault enumeration: start states {no module, stale "
+        "module, other magic number, generated from another file, stale + missing directory} x every call k of the "
+        "write group x {kill before, kill after, kill midway (write), raise, short write} = 70 cases.  Concurrency: "
+        "n in {2,4,8} (thorough 2..8 x 6 repetitions) x start states {none, stale, other magic, other file, fresh, "
+        "source in the future} x 3-12 rounds per process + one process killed at a random call of its write group; "
+        "model side: 40 (thorough 200) random complete schedules + sequential + lock step per configuration.")
 ASSUMPTIONS = [
     "POSIX rename within one directory is atomic and mkstemp names are unique (the OS's part of the property)",
     "the file system's clock is modelled as a logical clock advancing >= 1 s per history op in streams (a)-(c); "
     "the same-second case is probed separately in (d)",
     "streams (a)-(c) run with sys.dont_write_bytecode (as this sandbox does); CPython's bytecode cache is modelled "
-    "(World.pyc) and probed by (d)",
+    "in the sequential model (World.pyc) and probed by (d) with bytecode writing enabled; the interleaving model "
+    "of (c) has no bytecode cache",
+    "a module file installed by somebody else does not collide in (mtime second, size) with the cached bytecode "
+    "of the module path (HistOkFrom) - CPython validates cached bytecode by that key",
+    "the source is not modified while constructs are running (concurrent_constructs_converge; the theorem "
+    "concurrent_constructs_need_stable_source_counterexample shows what happens otherwise - outside the property's quantifier)",
     "durability across power loss (fsync) is not claimed by the property",
 ]
-TRUSTED_EXTRA = ["C15: the proxies in harness/props/C15.py that record / fail mako's file-system calls; "
-                 "tools/regen_modfile.py (reads the writer's primitive sequence from the AST)"]
+TRUSTED_EXTRA = ["C15: the proxies in harness/props/C15.py that record / fail mako's file-system calls (incl. the raw "
+                 "layer under the real BufferedWriter); tools/regen_modfile.py (reads the writer's primitive sequence, "
+                 "the staleness test and the re-check from the AST); the driver-side glue of `modfile hist/conc`"]
 REGEN = ["ModFile"]
 
 VERIF = os.path.dirname(os.path.dirname(os.path.dirname(os.path.abspath(__file__))))
@@ -1028,6 +1047,12 @@ def worker_inspect(sc):
 
 def worker_race(job):
     from mako.template import Template
+    rec = None
+    if job.get("fault"):
+        f = job["fault"]
+        rec = Recorder(FaultPlan({(f[0], f[1]): f[2]}))          # this process dies at that call of its write group
+        rec.install()
+        rec.begin_construct()
     while time.time() < job["start_at"]:
         pass
     res = []
@@ -1046,7 +1071,7 @@ def worker_race(job):
 
 
 def worker_pyc(job):
-    """finding F-C15-2: rewrite within one mtime second, same size, bytecode caching on"""
+    """rewrite within one mtime second, same size, bytecode caching on (CPython validates cached bytecode by that key)"""
     from mako.template import Template
     sys.dont_write_bytecode = False
     out = {"dont_write_bytecode": sys.dont_write_bytecode, "attempts": [], "hook": bool(job.get("hook"))}
@@ -1309,6 +1334,11 @@ def oracle_concurrent(ctx, root):
         start_at = time.time() + 0.35
         procs = [spawn({"mode": "race", "src": sb.src, "moddir": sb.moddir, "start_at": start_at, "rounds": rounds,
                         "id": i, "delete_between": state.endswith("delete")}) for i in range(n)]
+        # one more process that is killed at some call of its write group (before / after / midway)
+        group = 2 if state in ("magic", "otherfile") else 1
+        j, kind = ctx.rng.choice([(j_, k_) for j_ in range(4) for k_ in ("kb", "ka")] + [(1, "km")])
+        dying = spawn({"mode": "race", "src": sb.src, "moddir": sb.moddir, "start_at": start_at, "rounds": 1, "id": n,
+                       "fault": [group, j, kind]})
         obs = []
         for i, p in enumerate(procs):
             rc, lines, err = finish(p)
@@ -1321,6 +1351,10 @@ def oracle_concurrent(ctx, root):
                 ctx.violation("concurrent-construct-failed", {"kind": "conc", "n": n, "state": state,
                                                               "input": "n=%d state=%s" % (n, state)},
                               "process %d of %d: rc=%r results=%r %s" % (i, n, rc, lines, err[-300:]), "oracle.concurrent")
+        drc, dlines, derr = finish(dying)
+        ctx.branch("concurrent:dying:%s:rc=%s" % (kind, drc))
+        if drc not in (0, 9):
+            ctx.broke("oracle.concurrent:dying-worker", "rc=%r %s" % (drc, derr[-300:]))
         fin = inspect_module(sb.mp, sb.src)
         if fin[0] != "complete" or fin[1] != sb.ver:
             if "concurrent-final" not in reported:
@@ -1329,7 +1363,7 @@ def oracle_concurrent(ctx, root):
                                                                 "input": "n=%d state=%s" % (n, state)},
                               "module path after the race: %r" % (fin,), "oracle.concurrent")
         ctx.nontriv(("conc", n, state))
-        observed.append((n, state, sb.ver, sorted(set(obs), key=str), fin))
+        observed.append((n, state, sb.ver, sorted(set(obs), key=str), fin, (group, j, kind, drc)))
         shutil.rmtree(base, ignore_errors=True)
     corr_concurrent(ctx, observed)
 
@@ -1351,18 +1385,30 @@ def corr_concurrent(ctx, observed):
     st = ctx.stream("corr.concurrent_outcomes")
     nsched = 40 if ctx.quick else 200
     reqs, owner = [], []
-    keys = sorted({(n, state) for n, state, _, _, _ in observed})
-    for n, state in keys:
+    keys = sorted({(n, state, d[:3]) for n, state, _, _, _, d in observed})
+    for n, state, (group, j, kind) in keys:
         init, v, sm, ck = MODEL_CONC_INIT[state]
+        # steps the dying process (pid n) gets: up to its write group, then the actions before the kill
+        acts = sum(ACTS_OF[GROUP_CALLS[i]] for i in range(j)) + (ACTS_OF[GROUP_CALLS[j]] if kind == "ka" else 1 if kind == "km" else 0)
+        dsteps = (3 if group == 1 else 4) + acts
         for k in range(nsched):
-            sched = [p for p in range(n) for _ in range(26)]
+            sched = [p for p in range(n) for _ in range(26)] + [n] * dsteps
             ctx.rng.shuffle(sched)
             if k == 0:
-                sched = [p for p in range(n) for _ in range(26)]          # sequential
+                sched = [n] * dsteps + [p for p in range(n) for _ in range(26)]      # the dying one first, then sequential
             elif k == 1:
-                sched = [p for _ in range(26) for p in range(n)]          # lock step
+                sched = [p for _ in range(26) for p in range(n + 1)]
+                # lock step; the dying process stops after its steps
+                seen, out_ = 0, []
+                for p in sched:
+                    if p == n:
+                        seen += 1
+                        if seen > dsteps:
+                            continue
+                    out_.append(p)
+                sched = out_
             reqs.append("modfile conc %s %d %d %d %d %s" % (init, v, sm, ck, n, " ".join(map(str, sched))))
-            owner.append((n, state))
+            owner.append((n, state, (group, j, kind)))
     outs = ask_many(ctx, reqs)
     reach = {}
     for key, o in zip(owner, outs):
@@ -1378,14 +1424,15 @@ def corr_concurrent(ctx, observed):
         else:
             src, magic, comp, stamp, fil = fin.split("@")[0].split(":")
             r["final"].add(("complete" if comp == "1" else "broken", int(src), int(magic), fil == "0"))
-    for n, state, cur, obs, fin in observed:
+    for n, state, cur, obs, fin, d in observed:
         st["cases"] += 1
-        r = reach[(n, state)]
+        r = reach[(n, state, d[:3])]
+        ctx.branch("conc-model:dying=%s.%d%s" % (d[0], d[1], d[2]))
         ctx.branch("conc-model:%s:outcomes=%d/finals=%d" % (state, len(r["procs"]), len(r["final"])))
         bad = [o for o in obs if tuple(o) not in r["procs"]]
         f = tuple(fin[:4]) if fin[0] == "complete" else (fin[0],)
         if bad or f not in r["final"]:
-            ctx.disagree("corr.concurrent_outcomes", {"kind": "conc", "n": n, "state": state},
+            ctx.disagree("corr.concurrent_outcomes", {"kind": "conc", "n": n, "state": state, "dying": list(d)},
                          {"procs": sorted(r["procs"], key=str), "final": sorted(r["final"], key=str)},
                          {"procs": obs, "final": fin})
 
